@@ -521,6 +521,72 @@ type violation struct {
 	Why      string `json:"why"`
 }
 
+// lookalikeReplies: on a push-enabled server with one callback outstanding (number N), reply-shaped members whose id is
+// spelled like N but is another id ("N" as a string, N.0, NeO, -N) match no outstanding callback: they are dropped, the
+// callback waits on, the server neither crashes nor answers them, their neighbours in a batch are served; the reply
+// with the id as issued then completes the callback.
+func lookalikeReplies(addV func(prop, input string, push bool, why string), res *result) {
+	r := newRig(true)
+	defer r.close()
+	type cbres struct {
+		rsp *jrpc2.Response
+		err error
+		p   any
+	}
+	done := make(chan cbres, 1)
+	go func() {
+		var o cbres
+		defer func() { o.p = recover(); done <- o }()
+		o.rsp, o.err = r.srv.Callback(context.Background(), "cb", nil)
+	}()
+	synctest.Wait()
+	r.ch.Lock()
+	outs := append([][]byte(nil), r.ch.Out[r.nout:]...)
+	r.nout = len(r.ch.Out)
+	r.ch.Unlock()
+	var req struct {
+		ID json.RawMessage `json:"id"`
+	}
+	if len(outs) != 1 || json.Unmarshal(outs[0], &req) != nil || len(req.ID) == 0 {
+		panic(fmt.Sprintf("harness: no callback request on the wire: %q", outs))
+	}
+	id := string(req.ID)
+	for _, alt := range []string{`"` + id + `"`, id + ".0", id + "e0", "-" + id, `" ` + id + `"`, `"\u003` + id[:1] + `"`} {
+		for fi, form := range []string{`{"jsonrpc":"2.0","id":%s,"result":"wrong"}`, `[{"jsonrpc":"2.0","id":%s,"error":{"code":1,"message":"wrong"}}]`,
+			`[{"jsonrpc":"2.0","id":%s,"result":"wrong"},{"jsonrpc":"2.0","id":"q","method":"h"}]`, `{"id":%s,"result":null}`} {
+			txt := fmt.Sprintf(form, alt)
+			calls, outs := r.feed([]byte(txt))
+			res.Evaluations++
+			res.Classes["lookalike-reply"]++
+			select {
+			case o := <-done:
+				addV("C02", txt, true, fmt.Sprintf("callback %s outstanding: a reply with id %s ended it (panic=%v err=%v)", id, alt, o.p, o.err))
+				return
+			default:
+			}
+			wantCalls, wantOuts := 0, 0
+			if fi == 2 {
+				wantCalls, wantOuts = 1, 1
+			}
+			if len(calls) != wantCalls || len(outs) != wantOuts {
+				addV("C02", txt, true, fmt.Sprintf("callback %s outstanding: %d handler calls and %d records sent (%q), want %d and %d: a reply that matches no outstanding callback is dropped", id, len(calls), len(outs), outs, wantCalls, wantOuts))
+				return
+			}
+		}
+	}
+	r.feed([]byte(fmt.Sprintf(`{"jsonrpc":"2.0","id":%s,"result":"right"}`, id)))
+	res.Evaluations++
+	select {
+	case o := <-done:
+		var got string
+		if o.p != nil || o.err != nil || o.rsp.UnmarshalResult(&got) != nil || got != "right" {
+			addV("C02", id, true, fmt.Sprintf("the reply to callback %s: panic=%v err=%v result=%q", id, o.p, o.err, got))
+		}
+	default:
+		addV("C02", id, true, "the reply with the callback's own id did not complete it")
+	}
+}
+
 func TestWire(t *testing.T) {
 	tp := os.Getenv("VERIF_TABLE")
 	if tp == "" {
@@ -557,6 +623,9 @@ func TestWire(t *testing.T) {
 		}
 	}
 	synctest.Test(t, func(t *testing.T) {
+		if replay == "" && shard == 0 {
+			lookalikeReplies(addV, &res)
+		}
 		for _, push := range []bool{false, true} {
 			onHang = func() {
 				// the verdict of the record that made the server stop serving is already in the list (or this is the
